@@ -32,7 +32,7 @@ U = "90478484-0988-45fc-91fe-757d90136892"
 SEG_TEMPLATES = ["cafe\u0301", "a", "a.b", "v1+", "a(b)", "[a]", "{N}", "{N:str}", "{N:int}", "{N:decimal}", "{N:uuid}", "{N:date}", "{N:any}",
                  "{N}-{M:int}", "p{N:int}s", "{N:str}.json", "{N:decimal}x", "id-{N:uuid}", "{N:date}T", "a|b", "a$", "^a", "a*"]
 VALID = {
-    "str": ["x", "a.b", "é", "12", "a b", "x\ny", "%41", " ", "e\u0301", "\u1100\u1161", "caf\u00e9"],
+    "str": ["alice;v=2", ";semi", "x", "a.b", "é", "12", "a b", "x\ny", "%41", " ", "e\u0301", "\u1100\u1161", "caf\u00e9"],
     "int": ["0", "12", "007", "1" * 40, "1" * 400],
     "decimal": ["0", "100", "1.5", "10.50", "0.0", "000", "1.000", "100.0", "12345678901234567890.123"],
     "uuid": [U, "00000000-0000-0000-0000-000000000000"],
@@ -47,7 +47,7 @@ NEAR = {
     "date": ["2021-13-45", "2021-02-30", "0000-01-01", "2021-3-7", "21-03-07", "2021/03/07", "2021-03-07\n", "2023-02-29"],
     "any": [],
 }
-PSEGS = ["cafe\u0301", "caf\u00e9", "a", "axb", "a.b", "v1+", "v11", "v1", "a(b)", "ab", "[a]", "b", "a|b", "a$", "^a", "a*", "aaa", "", "x-12", "x-y-3", "x-", "-3", "p5s",
+PSEGS = ["alice;v=2", ";x", "a;", "cafe\u0301", "caf\u00e9", "a", "axb", "a.b", "v1+", "v11", "v1", "a(b)", "ab", "[a]", "b", "a|b", "a$", "^a", "a*", "aaa", "", "x-12", "x-y-3", "x-", "-3", "p5s",
          "ps", "p5", "f.json", "fxjson", ".json", "1.5x", "id-" + U, U + "T", "2021-03-07T", "a\n", "\na"]
 
 
